@@ -902,9 +902,43 @@ func (g *Gen) goInstr(x *ssa.Go, st *State) {
 			}
 		}
 	}
-	env := g.env(st, vars)
+	// ghost updates attached to the go statement: at call go:<callee>#k: ghost ...
+	gname := "go:" + calleeName(&x.Call)
+	g.callOrd[gname]++
+	if g.c != nil {
+		for _, cs := range g.c.Calls {
+			if cs.Callee == gname && (cs.K == g.callOrd[gname] || cs.K == 0) {
+				cs.Matched = true
+				if len(g.shared()) > 0 {
+					g.interfere(st)
+				}
+				prev := st.clone()
+				env0 := g.env(st.clone(), g.callScope(vars))
+				for _, ga := range cs.Ghost {
+					val := env0.tr(ga.Val).S
+					cur := g.heapGet(st, ga.Comp)
+					if ga.Idx != nil {
+						g.heapSet(st, ga.Comp, store(cur, env0.tr(ga.Idx).S, val))
+					} else {
+						g.heapSet(st, ga.Comp, val)
+					}
+				}
+				if g.touchesShared(st, prev) {
+					g.checkGuar(prev, st, gname, x.Pos())
+				}
+			}
+		}
+	}
+	// the new goroutine has its own thread-local ghosts, initialised as the callee's contract says
+	nst := st.clone()
+	for _, ga := range ct.OnSpawn {
+		if _, ok := g.m.comps[ga.Comp]; ok {
+			nst.heap[ga.Comp] = g.env(st, vars).tr(ga.Val).S
+		}
+	}
+	env := g.env(nst, vars)
 	for j, r := range ct.Requires {
-		g.assert(st, "go", fmt.Sprintf("%s/requires%d", calleeName(&x.Call), j+1), env.tr(r).S, ct.ReqSrc[j], x.Pos())
+		g.assert(nst, "go", fmt.Sprintf("%s/requires%d", calleeName(&x.Call), j+1), env.tr(r).S, ct.ReqSrc[j], x.Pos())
 	}
 }
 
